@@ -160,6 +160,10 @@ class Runner:
                 return True
             if beh == 'false':
                 return False
+            if beh == 'crash':
+                # the application's connect handler fails with an unexpected
+                # exception: the client is not connected
+                raise Injected('connect handler crashed')
             if isinstance(beh, (list, tuple)) and beh[0] == 'refuse':
                 import socketio
                 raise socketio.exceptions.ConnectionRefusedError(*beh[1:])
